@@ -254,7 +254,7 @@ Proof.
   destruct (mu_idle (mw xw) t) eqn:MI; try exact H0.
   assert (t < length (xthr xw))%nat as Ht by (apply xget_inb; rewrite Hx; discriminate).
   unfold xget in Hx.
-  destruct o as [o'|m| | |[m|]]; xn Hx; rewrite ?nth_lupd_same by exact Ht; cbn [x_pc x_ops x_rets];
+  destruct o as [o'|m| | |[m|]|m]; xn Hx; rewrite ?nth_lupd_same by exact Ht; cbn [x_pc x_ops x_rets];
     (apply TInv_same; [exact H0 | exact Ht | reflexivity | | auto | auto |]);
     try (intros u; first [apply wlt_push_op | reflexivity]).
   all: cbn [x_pc wphase]; try discriminate.
@@ -394,6 +394,12 @@ Proof.
     + rewrite nth_lupd_same by exact Ht. cbn [x_ops x_rets]. rewrite Em.
       apply TInv_mu; [exact H1 | exact Ht | cbn [x_pc wphase]; discriminate].
     + rewrite Em. apply TInv_mu0; exact H1.
+  - (* XgStore *) assert (t < length (xthr xw))%nat as Ht by (apply HtN; discriminate). cbn [fst]. xn Hx.
+    apply TInv_same; [exact H1 | exact Ht | reflexivity | intros; reflexivity | | | ].
+    + intros p Hw Hf. unfold set_waiting in Hw; cbn [waiting] in Hw. unfold fupd in *.
+      destruct (Nat.eqb p t); [discriminate Hf | exact Hw].
+    + intros p Hf. apply fupd_true_inv in Hf. exact Hf.
+    + intros _. right. apply fupd_same.
 Qed.
 End TransferInvariant.
 
